@@ -776,7 +776,10 @@ class Sym:
     __index__ = __int__
 
     def __round__(self, nd=None):
-        raise EngineLimit('round() of symbolic value')
+        # builtin round(x, nd): a nearest multiple of 10^-nd (ties unspecified), as numpy.around in the shim;
+        # round(x) with no digits returns an int in Python - kept symbolic (an integer atom)
+        scale = 10 ** int(nd or 0)
+        return Sym(round_node(mul(C(scale), self.n))) / scale
 
     def __repr__(self):
         return f'Sym({show(self.n, 4)})'
